@@ -218,8 +218,8 @@ theorem strBlankFill_spec (str post : Buf) (ndest : Nat) (h0 : ∀ c ∈ str, c 
       = .ok (fassign ndest str ++ (str ++ NUL :: post).drop ndest) := by
   have h1 : ((ndest : Int) > (str.length : Int)) := by omega
   have h2 : ¬ ((str.length : Int) < 0) := by omega
-  simp only [strBlankFill, strlen_app str post h0, Res.ok_bind, narrow32_of_lt _ hfit, h1, if_true,
-    h2, if_false, Int.toNat_natCast]
+  simp only [strBlankFill, strlen_app str post h0, Res.map_ok, Res.ok_bind, narrow32_of_lt _ hfit,
+    strBlankFillTail, h1, if_true, h2, if_false, Int.toNat_natCast]
   rw [memset_ok _ _ _ _ (by omega), fassign_short _ _ (by omega)]
   have : str.length + (ndest - str.length) = ndest := by omega
   simp [this]
